@@ -539,12 +539,13 @@ const (
 	r8Clean = iota
 	r8CorruptBlock
 	r8SourceFails
-	r8EmptyThenCorrupt // an empty stored block early in the frame, a corrupted block later
-	r8ResetMidstream   // the Reader is Reset to a second frame while the pipeline of the first is still running
+	r8EmptyThenCorrupt      // an empty stored block early in the frame, a corrupted block later
+	r8ResetMidstream        // the Reader is Reset to a second frame while the pipeline of the first is still running
+	r8ResetAfterSinkFailure // WriteTo of a first frame fails in the destination mid-stream, then Reset to a second frame
 	numR8
 )
 
-var r8Names = []string{"clean", "corrupt-block", "source-fails", "empty-block-then-corrupt-block", "reset-midstream"}
+var r8Names = []string{"clean", "corrupt-block", "source-fails", "empty-block-then-corrupt-block", "reset-midstream", "reset-after-writeto-sink-failure"}
 
 func c08Reader(c *Ctx, i int64) {
 	per := c08Perturb(c)
@@ -591,7 +592,7 @@ func c08Reader(c *Ctx, i int64) {
 	}
 	// reset-midstream: a first frame (other content) is read in part, then the Reader is Reset to `in`
 	var first []byte
-	if cond == r8ResetMidstream {
+	if cond == r8ResetMidstream || cond == r8ResetAfterSinkFailure {
 		other := distinctBlocks(g, 4+g.N(6), 65536, 1+g.N(3000))
 		first, _, err = writeScript(wcfg{bs: lz4.Block64Kb, bc: g.Bool(), cc: true, conc: 1, level: lz4.Fast}, []wstep{{data: other}})
 		if err != nil {
@@ -612,12 +613,22 @@ func c08Reader(c *Ctx, i int64) {
 	c.Tag(fmt.Sprintf("reader/%s/conc%d", r8Names[cond], conc))
 	wr := c.Watch("concurrent-reader", func() {
 		r := lz4.NewReader(src)
-		if cond == r8ResetMidstream {
+		if cond == r8ResetMidstream || cond == r8ResetAfterSinkFailure {
 			r = lz4.NewReader(&gen.Source{Data: first, Budget: 100000, MaxChunk: 70000})
 		}
 		if err := r.Apply(lz4.ConcurrencyOption(conc), lz4.OnBlockDoneOption(func(n int) { atomic.AddInt64(&blocks, 1) })); err != nil {
 			rerr = err
 			return
+		}
+		if cond == r8ResetAfterSinkFailure {
+			// the destination of WriteTo fails at its first / second / third write: the Reader goes into its error
+			// state while its pipeline still has blocks in flight
+			bad := &gen.Sink{FailFrom: 1 + partial, Budget: 1000}
+			if _, err := r.WriteTo(bad); err == nil {
+				rerr = fmt.Errorf("WriteTo reported no error although its destination failed at write %d", 1+partial)
+				return
+			}
+			r.Reset(src)
 		}
 		if cond == r8ResetMidstream {
 			pb := make([]byte, []int{1, 997, 65536 + 4000}[partial])
@@ -698,7 +709,7 @@ func c08Reader(c *Ctx, i int64) {
 	c.Count("poison_checks", rep.PoisonChecks)
 	c.Count("quarantined_buffers_reused", rep.ReusedQuarantine)
 	switch cond {
-	case r8Clean, r8ResetMidstream:
+	case r8Clean, r8ResetMidstream, r8ResetAfterSinkFailure:
 		if rerr != nil || !bytes.Equal(out, data) {
 			key := "reader-output-wrong/" + r8Names[cond]
 			if bytes.Contains(out, bytes.Repeat([]byte{0xDB}, 64)) {
@@ -739,7 +750,7 @@ func c08Reader(c *Ctx, i int64) {
 			collected = append(collected, e.ID)
 		}
 	}
-	if cond == r8ResetMidstream {
+	if cond == r8ResetMidstream || cond == r8ResetAfterSinkFailure {
 		// two pipelines log into the same list: their relative order is free; the output comparison decides
 	} else if len(collected) > len(read) {
 		c.Violation("ordering/reader-collected-more-than-read", fmt.Sprintf("%d blocks collected, %d read", len(collected), len(read)), det())
